@@ -44,7 +44,13 @@ type c11Store struct {
 	calls   atomic.Int64
 	limit   int64
 	tripped atomic.Bool
+	// unavailable: the handler's etcdAvailable() probe (interface{ Available() bool }) reports
+	// the metadata store as unreachable, as the repo's unavailableMetadataStore test wrapper
+	// does; the broker then answers with its "cannot coordinate / timed out" replies.
+	unavailable bool
 }
+
+func (s *c11Store) Available() bool { return !s.unavailable }
 
 func (s *c11Store) NextOffset(ctx context.Context, topic string, partition int32) (int64, error) {
 	if s.calls.Add(1) > s.limit {
@@ -260,6 +266,11 @@ func TestVF_C11_Broker(t *testing.T) {
 			t.Skip(inconclusive)
 		}
 		store := &c11Store{InMemoryStore: metadata.NewInMemoryStore(c11Metadata()), limit: 3000}
+		store.unavailable = rapid.IntRange(0, 4).Draw(t, "store-unavailable") >= 3
+		mode := "store-available"
+		if store.unavailable {
+			mode = "store-unavailable"
+		}
 		h := newHandler(store, storage.NewMemoryS3Client(), brokerInfo, testLogger())
 		defer h.coordinator.Stop()
 		sw.cur.Store(h)
@@ -294,8 +305,12 @@ func TestVF_C11_Broker(t *testing.T) {
 			}
 			st.Class("class:" + p.Class)
 			st.Class("outcome:" + out.Kind)
+			st.Class("mode:" + mode)
 			if p.Advertised {
 				st.Class(fmt.Sprintf("key-%02d", p.Key))
+				if store.unavailable {
+					st.Class(fmt.Sprintf("unavailable-key-%02d", p.Key))
+				}
 			}
 			if out.Kind == "timeout" {
 				inconclusive = fmt.Sprintf("no answer to %s (%s) within the 30s guard (%v) shape=%s frame=%x", p.Name(), p.Class, out.Err, p.Shape, p.Frame)
@@ -340,8 +355,8 @@ func TestVF_C11_Broker(t *testing.T) {
 				idform = "topic-ids"
 				st.Class("topic-ids")
 			}
-			if st.NonTrivial(p.Key, p.Version, p.Class, fl, idform, p.Shape.String(), out.Kind) {
-				st.Sample(map[string]any{"api": p.Name(), "class": p.Class, "shape": p.Shape.String(), "outcome": out.Kind})
+			if st.NonTrivial(p.Key, p.Version, p.Class, mode, fl, idform, p.Shape.String(), out.Kind) {
+				st.Sample(map[string]any{"api": p.Name(), "class": p.Class, "mode": mode, "shape": p.Shape.String(), "outcome": out.Kind})
 			}
 			if out.Kind == "closed" || out.Kind == "reply-then-closed" {
 				break
